@@ -127,6 +127,24 @@ def gen_rpn_restart_script(rng):
     return {'cfg': {'cpn': cpn, 'gpn': 0, 'lfs': 0, 'mem': 0, 'scattered': False}, 'nodes': nodes, 'iters': iters}
 
 
+def gen_restart_first_script(rot):
+    """property-directed (C04, continuous = non-scattered search): sixteen single-core tasks fill four nodes of four cores, a
+    task of six ranks waits alone; completions free 2, 3 and 2 cores on three nodes (nowhere enough for it), then all four
+    cores of the node behind the last of them: that node and its neighbour before it (2 + 4 free cores, neighbours by index)
+    hold a continuous placement - first node partly, last node fully - and the task has to be started"""
+    cpn, nn = 4, 4
+    nodes = [{'index': i, 'cores': [0] * cpn, 'gpus': [], 'lfs': 0, 'mem': 0} for i in range(nn)]
+    E = lambda inc=None, un=None: {'incoming': inc or [], 'marks': [], 'envs': [], 'unsched': un or []}
+    fill = [_req(k, 1, 1) for k in range(16)]          # node n holds tasks 4n .. 4n+3
+    w = _req(50, 6, 1)
+    order = [(rot + i) % nn for i in range(nn)]
+    on = lambda n, k: [4 * n + j for j in range(k)]
+    iters = [E([{'sched': fill}]), E([{'sched': [w]}]), E(None, [on(order[0], 2)]), E(None, [on(order[1], 3)]), E(None, [on(order[2], 2)]),
+             E(None, [on(order[3], 4)]), E(), E()]
+    return {'cfg': {'cpn': cpn, 'gpn': 0, 'lfs': 0, 'mem': 0, 'scattered': False}, 'nodes': nodes, 'iters': iters,
+            'must_start': [50, 'nodes %d and %d are neighbours and have 2 and 4 free cores: a continuous placement of 6 single-core ranks' % (order[2], order[3])]}
+
+
 def gen_colo_script(rng):
     """property-directed (C02, colocate): a continuous (non-scattered) pilot with some nodes full; a tagged task of several
     ranks is placed - possibly after its walk found ranks on a node, met a full node and started over - and then a second
@@ -173,6 +191,9 @@ def run(ctx, prop):
         scripts.append(schedlib.keep_valid_releases(rp, gen_excl_script(rng)))
     for i in range(ctx.n(24, 400)):
         scripts.append(schedlib.keep_valid_releases(rp, gen_rpn_restart_script(rng)))
+    for rot in (0, 2, 3):
+        # (rotation 1 would make the two nodes neighbours only across the end of the node list)
+        scripts.append(gen_restart_first_script(rot))
     for i in range(ctx.n(2, 40)):
         # large pilots: more than 512 releases reach the scheduler within one drain of the unschedule queue
         scripts.append(schedlib.fill_releases(rp, schedlib.gen_big_script(rng)))
